@@ -5,11 +5,10 @@ import VibeProof.Lemmas.Bind
 C30 — Python DB-API parameter binding is faithful.
 
  T1  quoting: a bound string is read back by the lexer as exactly that string;
- T2  structure preservation: if every `?` stands in code position (outside string literals,
-     delimited identifiers and comments) and no value's text merges with its surroundings, the
-     pieces of the bound text are the pieces of the SQL text with each placeholder replaced by the
-     pieces of its value — values never alter the statement's structure.  Counterexamples for each
-     excluded situation (`?` inside a literal, a negative number after `-`, a string next to a quote);
+ T2  structure preservation (full, for the repaired `substitute_placeholders`): the pieces of the
+     bound text are the pieces of the SQL text with each placeholder replaced by the pieces of its
+     value — values never alter the statement's structure, and a `?` inside a literal, a delimited
+     identifier or a comment is not a placeholder;
  T3  history independence: false as coded — the statement cache is keyed by the SQL text before
      binding, so a second call with other values runs the first call's statement; proved for the
      design that keys the cache by the bound text.
@@ -28,11 +27,6 @@ example : lexString (renderVal (.str "x' OR '1'='1".toList) ++ " AND b = 2".toLi
   C30_quote_roundtrip _ _ (by intro c r' h; injection h with h1 _; subst h1; decide)
 
 /-! ## T2 -/
-
-/-- the full statement: binding never changes the structure of the statement -/
-def C30_structure_full : Prop :=
-  ∀ (sql : Str) (vs : List PVal), countQ sql = vs.length → (∀ v ∈ vs, v.wf = true) →
-    scan (substitute sql vs) = (scanQ sql).map (fill · vs)
 
 theorem scanQ_hole (m : Mode) (cs : Str) (hm : codeMode m = true) :
     scanGo true m ('?' :: cs) =
@@ -53,42 +47,63 @@ theorem scanQ_hole (m : Mode) (cs : Str) (hm : codeMode m = true) :
     Except.bind]
   cases flush m with
   | error e => rfl
-  | ok f => cases scanGo true .norm cs <;> simp [Except.bind, Except.map]
+  | ok f => cases scanGo true .norm cs <;> simp [Except.map]
 
-theorem structure_gen (sql : Str) : ∀ (m : Mode) (vs : List PVal), bindSafe m sql vs = true →
-    scanGo false m (substitute sql vs) = (scanGo true m sql).map (fill · vs) := by
+/-- a character that is copied: both scanners make the same step, and the substitution scanner
+moves to the mode the lexer moves to -/
+theorem copy_step (c : Char) (cs : Str) (m : Mode) (vs : List PVal)
+    (hstep : stepMode true m c = stepMode false m c)
+    (ih : ∀ m', modeOk m' → countGo m' cs = vs.length →
+      scanGo false m' (substGo m' cs vs) = (scanGo true m' cs).map (fill · vs))
+    (hok : modeOk m) (hcount : countGo (nextMode m c) cs = vs.length) :
+    scanGo false m (c :: substGo (nextMode m c) cs vs) =
+      (scanGo true m (c :: cs)).map (fill · vs) := by
+  rw [scanGo_cons, scanGo_cons, hstep]
+  cases hs : stepMode false m c with
+  | error e => rfl
+  | ok pm =>
+    obtain ⟨ps, m'⟩ := pm
+    have hm' : m' = nextMode m c := stepMode_mode false m c ps m' hs
+    subst hm'
+    have hn := stepMode_false_noHoles m c ps _ hs
+    simp only [Except.bind]
+    rw [ih _ (modeOk_next m c hok) hcount]
+    cases scanGo true (nextMode m c) cs with
+    | error e => rfl
+    | ok rest => simp [Except.map, fill_noHoles_append ps rest vs hn]
+
+theorem structure_gen (sql : Str) : ∀ (m : Mode) (vs : List PVal), modeOk m →
+    countGo m sql = vs.length → (∀ v ∈ vs, v.wf = true) →
+    scanGo false m (substGo m sql vs) = (scanGo true m sql).map (fill · vs) := by
   induction sql with
   | nil =>
-    intro m vs h
-    simp only [bindSafe, List.isEmpty_iff] at h
-    subst h
-    simp only [substitute, scanGo]
+    intro m vs _ hcount _
+    have hvs : vs = [] := by
+      cases vs with
+      | nil => rfl
+      | cons v vs' => simp [countGo] at hcount
+    subst hvs
+    simp only [substGo, scanGo]
     cases hf : finishMode m with
     | error e => rfl
     | ok ps => simp [Except.map, fill_noHoles ps [] (finishMode_noHoles m ps hf)]
   | cons c cs ih =>
-    intro m vs h
+    intro m vs hok hcount hwf
     by_cases hc : c = '?'
     · subst hc
-      cases vs with
-      | nil => simp [bindSafe] at h
-      | cons v vs' =>
-        simp only [bindSafe, if_true, Bool.and_eq_true] at h
-        obtain ⟨⟨⟨⟨hm, hwf⟩, hh⟩, ht⟩, hrest⟩ := h
-        have ih' := ih .norm vs' hrest
-        simp only [substitute, if_true]
-        -- the value's text is not empty, and its first character leaves mode m
-        cases hr : renderVal v with
-        | nil => simp [headOk, hr] at hh
-        | cons c0 t =>
-          have hl : leaves m c0 = true := by simpa [headOk, hr] using hh
-          have hT : isStrVal v = true → ∀ c T', substitute cs vs' = c :: T' → c ≠ '\'' := by
-            intro hs c T' e
-            simp only [tailOk, hs, Bool.not_true, Bool.false_or, e, decide_eq_true_eq] at ht
-            exact ht
-          have hval := scanGo_val false v hwf (substitute cs vs') hT
-          rw [hr] at hval
-          rw [List.cons_append, scanGo_leave false m c0 _ hm hl, ← List.cons_append, hval, ih',
+      by_cases hal : placeholderAllowed m = true
+      · -- a placeholder: the value's literal with a blank on either side
+        simp only [countGo, hal, Bool.and_true, decide_true, if_true] at hcount
+        cases vs with
+        | nil => simp at hcount
+        | cons v vs' =>
+          have hcount' : countGo .norm cs = vs'.length := by simpa using hcount
+          have hm := allowed_codeMode m hok hal
+          have ih' := ih .norm vs' trivial hcount' (fun v' h => hwf v' (by simp [h]))
+          have hval := scanGo_val false v (hwf v (by simp)) (' ' :: substGo .norm cs vs')
+            (by intro _ c T' e; injection e with e1 _; subst e1; decide)
+          simp only [substGo, hal, Bool.and_true, decide_true, if_true]
+          rw [scanGo_leave false m ' ' _ hm (leaves_space m hok), scanGo_space, hval, scanGo_space, ih',
             scanQ_hole m cs hm]
           cases hf : flush m with
           | error e => rfl
@@ -100,62 +115,46 @@ theorem structure_gen (sql : Str) : ∀ (m : Mode) (vs : List PVal), bindSafe m 
               simp only [Except.bind, Except.map]
               rw [fill_noHoles_append f _ _ hnf]
               simp [fill]
-    · have hstep := stepMode_noQ m c hc
-      simp only [bindSafe, hc, if_false] at h
-      simp only [substitute, hc, if_false]
-      rw [scanGo_cons, scanGo_cons, hstep]
-      cases hs : stepMode false m c with
-      | error e => rfl
-      | ok pm =>
-        obtain ⟨ps, m'⟩ := pm
-        simp only [hs] at h
-        have hn := stepMode_false_noHoles m c ps m' hs
-        simp only [Except.bind]
-        rw [ih m' vs h]
-        cases scanGo true m' cs with
-        | error e => rfl
-        | ok rest => simp [Except.map, fill_noHoles_append ps rest vs hn]
+      · -- a `?` inside a literal, a delimited identifier or a comment is copied
+        have hal' : placeholderAllowed m = false := by simpa using hal
+        simp only [countGo, hal', Bool.and_false, Bool.false_eq_true, if_false] at hcount
+        simp only [substGo, hal', Bool.and_false, Bool.false_eq_true, if_false]
+        exact copy_step '?' cs m vs (stepMode_q_inert m hal') (fun m' h1 h2 => ih m' vs h1 h2 hwf) hok hcount
+    · have hcq : (decide (c = '?') && placeholderAllowed m) = false := by simp [hc]
+      simp only [countGo, hcq, Bool.false_eq_true, if_false] at hcount
+      simp only [substGo, hcq, Bool.false_eq_true, if_false]
+      exact copy_step c cs m vs (stepMode_noQ m c hc) (fun m' h1 h2 => ih m' vs h1 h2 hwf) hok hcount
 
-/-- **T2 (partial).** Under `bindSafe`, the pieces of the bound text are the pieces of the SQL
-text with every placeholder replaced by the pieces of its value: a value can neither end a
-literal, nor start a comment, nor add or remove a token boundary. -/
-theorem C30_structure_partial (sql : Str) (vs : List PVal) (h : bindSafe .norm sql vs = true) :
+/-- **T2 (full).** Whenever the number of values equals the number of placeholders (which
+`bind_parameters` checks) the pieces of the bound text are the pieces of the SQL text with every
+placeholder replaced by the pieces of its value: a value can neither end a literal, nor start a
+comment, nor merge with a neighbouring token, and a `?` inside a literal, a delimited identifier
+or a comment stays what it is. -/
+theorem C30_structure (sql : Str) (vs : List PVal) (hcount : countQ sql = vs.length)
+    (hwf : ∀ v ∈ vs, v.wf = true) :
     scan (substitute sql vs) = (scanQ sql).map (fill · vs) :=
-  structure_gen sql .norm vs h
+  structure_gen sql .norm vs trivial hcount hwf
 
 /-- non-vacuity: a hostile string and a negative number bound into an INSERT -/
-example : bindSafe .norm "INSERT INTO t VALUES (?, ?)".toList
-    [.str "x'); DROP TABLE t; --".toList, .num true ['5']] = true := by decide +kernel
-
 example : scan (substitute "INSERT INTO t VALUES (?, ?)".toList
       [.str "x'); DROP TABLE t; --".toList, .num true ['5']])
     = (scanQ "INSERT INTO t VALUES (?, ?)".toList).map
         (fill · [.str "x'); DROP TABLE t; --".toList, .num true ['5']]) :=
-  C30_structure_partial _ _ (by decide +kernel)
+  C30_structure _ _ (by decide +kernel) (by decide +kernel)
 
-/-- a `?` inside a string literal is substituted too: the value becomes part of the literal
-(`SELECT '?', ?` with 1 and 2 binds `SELECT '1', 2`; both placeholders are counted) -/
-theorem C30_placeholder_in_literal_counterexample :
-    scan (substitute "SELECT '?', ?".toList [.num false ['1'], .num false ['2']]) ≠
-      (scanQ "SELECT '?', ?".toList).map (fill · [.num false ['1'], .num false ['2']]) := by
+/-- the situations that used to go wrong: `?` inside a literal is not a placeholder, a negative
+number after a minus sign stays a number, a string before a quote stays a literal of its own -/
+theorem C30_placeholder_in_literal :
+    bind "SELECT '?', ?".toList (some [.num false ['2']]) = .ok "SELECT '?',  2 ".toList := by
   decide +kernel
 
-/-- a negative number bound right after a minus sign starts a comment: `SELECT 7-?` with -5 is
-`SELECT 7--5`, i.e. `SELECT 7` -/
-theorem C30_negative_after_minus_counterexample :
-    scan (substitute "SELECT 7-?".toList [.num true ['5']]) = scan "SELECT 7".toList := by
+theorem C30_negative_after_minus :
+    scan (substitute "SELECT 7-?".toList [.num true ['5']]) = scan "SELECT 7 - -5".toList := by
   decide +kernel
 
-/-- a string bound right before a quote merges with the following literal -/
-theorem C30_string_before_quote_counterexample :
-    scan (substitute "SELECT ?'b'".toList [.str ['a']]) = scan "SELECT 'a''b'".toList := by
+theorem C30_string_before_quote :
+    scan (substitute "SELECT ?'b'".toList [.str ['a']]) = scan "SELECT 'a' 'b'".toList := by
   decide +kernel
-
-theorem C30_structure_counterexample : ¬ C30_structure_full := by
-  intro h
-  have := h "SELECT '?', ?".toList [.num false ['1'], .num false ['2']] (by decide +kernel)
-    (by decide +kernel)
-  exact C30_placeholder_in_literal_counterexample this
 
 /-! ## T3 -/
 
@@ -173,14 +172,14 @@ def C30_full : Prop :=
     (prepare parse cur sql ps).map (·.1) = intended parse sql ps
 
 def sqlIns : Str := "INSERT INTO t VALUES (?)".toList
-def cacheAfterFirst : Cursor Str := ⟨[(sqlIns, "INSERT INTO t VALUES (1)".toList)]⟩
+def cacheAfterFirst : Cursor Str := ⟨[(sqlIns, "INSERT INTO t VALUES ( 1 )".toList)]⟩
 
 /-- **T3 counterexample.** Two calls with the same text and different values: the second call
 runs the statement of the first (the parser is the identity here, so a statement is its text). -/
 theorem C30_history_counterexample :
-    prepare some ⟨[]⟩ sqlIns (some [.num false ['1']]) = .ok ("INSERT INTO t VALUES (1)".toList, cacheAfterFirst) ∧
-    (prepare some cacheAfterFirst sqlIns (some [.num false ['2']])).map (·.1) = .ok "INSERT INTO t VALUES (1)".toList ∧
-    intended some sqlIns (some [.num false ['2']]) = .ok "INSERT INTO t VALUES (2)".toList := by
+    prepare some ⟨[]⟩ sqlIns (some [.num false ['1']]) = .ok ("INSERT INTO t VALUES ( 1 )".toList, cacheAfterFirst) ∧
+    (prepare some cacheAfterFirst sqlIns (some [.num false ['2']])).map (·.1) = .ok "INSERT INTO t VALUES ( 1 )".toList ∧
+    intended some sqlIns (some [.num false ['2']]) = .ok "INSERT INTO t VALUES ( 2 )".toList := by
   refine ⟨?_, ?_, ?_⟩ <;> decide +kernel
 
 /-- as coded, a wrong number of parameters is not even noticed on a cache hit -/
@@ -251,8 +250,9 @@ theorem C30_full_counterexample : ¬ C30_full := by
 
 /-! ## values -/
 
-/-- `py_to_sqlvalue` tries int before bool and a Python bool is an int: `True` binds as `1` -/
-theorem C30_bool_binds_as_int : renderVal (pyToSql (.bool true)) = ['1'] ∧
-    renderVal (pyToSql (.bool false)) = ['0'] := by decide
+/-- a Python bool binds as TRUE / FALSE; NaN and the infinities are refused -/
+theorem C30_bool_binds_as_bool : (pyToSql (.bool true)).map renderVal = some "TRUE".toList ∧
+    (pyToSql (.bool false)).map renderVal = some "FALSE".toList ∧ pyToSql .nonFinite = none := by
+  decide +kernel
 
 end VibeProof.C30
